@@ -117,6 +117,7 @@ fn main() {
             }
         }
         Some("cdedb-read") => cdedb::run(&args[2], &args[3]),
+        Some("simple-read") => cdedb::run_simple(&args[2], &args[3]),
         _ => {
             eprintln!("usage: vharness gen <stream> <seed> <tier> <out> [corpusdir] | replay <file> <out>");
             std::process::exit(2);
